@@ -21,10 +21,34 @@ Signed(k) == k \in SignedKinds
 \* sizes of the 64-bit platforms this runs on (the replay driver is built for the same platform)
 W(k) == CASE k \in {"int8", "uint8"} -> 8 [] k \in {"int16", "uint16"} -> 16
           [] k \in {"int32", "uint32"} -> 32 [] OTHER -> 64
-MinOf(k) == IF Signed(k) THEN Neg(Pow2(W(k) - 1)) ELSE Zero
-MaxOf(k) == Sub(Pow2(IF Signed(k) THEN W(k) - 1 ELSE W(k)), One)
-InKind(k, x) == FitsIn(x, W(k), Signed(k))
-Wrap(k, x) == WrapTo(x, W(k), Signed(k))
+\* powers of two as literals (TLC does not cache a definition that uses a RECURSIVE operator such as
+\* Pow2; MC_IntALU checks PW(w) = Pow2(w), PH(w) = Pow2(w-1))
+P4 == [s |-> 1, l |-> <<16>>]
+P7 == [s |-> 1, l |-> <<128>>]
+P8 == [s |-> 1, l |-> <<256>>]
+P15 == [s |-> 1, l |-> <<2768, 3>>]
+P16 == [s |-> 1, l |-> <<5536, 6>>]
+P31 == [s |-> 1, l |-> <<3648, 4748, 21>>]
+P32 == [s |-> 1, l |-> <<7296, 9496, 42>>]
+P63 == [s |-> 1, l |-> <<5808, 5477, 368, 3372, 922>>]
+P64 == [s |-> 1, l |-> <<1616, 955, 737, 6744, 1844>>]
+PW(w) == CASE w = 8 -> P8 [] w = 16 -> P16 [] w = 32 -> P32 [] w = 64 -> P64        \* 2^w
+PH(w) == CASE w = 8 -> P7 [] w = 16 -> P15 [] w = 32 -> P31 [] w = 64 -> P63        \* 2^(w-1)
+PQ(w) == CASE w = 8 -> P4 [] w = 16 -> P8 [] w = 32 -> P16 [] w = 64 -> P32         \* 2^(w/2)
+\* x is a value of the w-bit signed / unsigned type
+Fits(x, w, signed) ==
+  IF signed THEN (x.s >= 0 /\ Cmp(x, PH(w)) < 0) \/ (x.s < 0 /\ Cmp(Neg(x), PH(w)) <= 0)
+  ELSE x.s >= 0 /\ Cmp(x, PW(w)) < 0
+\* the unique value of the type congruent to x modulo 2^w (two's complement wrap-around);
+\* same as BigInt's WrapTo, with a short cut for values already in range
+WrapW(x, w, signed) ==
+  IF Fits(x, w, signed) THEN x
+  ELSE LET m == Sub(x, Mul(ShiftRightFloor(x, w), PW(w))) IN           \* x mod 2^w in 0 .. 2^w - 1
+       IF signed /\ Cmp(m, PH(w)) >= 0 THEN Sub(m, PW(w)) ELSE m
+MinOf(k) == IF Signed(k) THEN Neg(PH(W(k))) ELSE Zero
+MaxOf(k) == Sub(IF Signed(k) THEN PH(W(k)) ELSE PW(W(k)), One)
+InKind(k, x) == Fits(x, W(k), Signed(k))
+Wrap(k, x) == WrapW(x, W(k), Signed(k))
 
 Arith == {"add", "sub", "mul", "div", "rem", "and", "or", "xor", "andnot"}
 Shifts == {"shl", "shr"}
@@ -87,15 +111,15 @@ RefHolds(op, k, k2, x, y, o) ==
    The VM keeps every integer in an int64 register: signed kinds sign-extended, unsigned kinds
    zero-extended (uint64/uint/uintptr reinterpreted).  Go's own int64/uintN arithmetic inside the
    VM wraps, which the model makes explicit with I64 / U / S.  *)
-I64(v) == WrapTo(v, 64, TRUE)                   \* int64(...) of a value that fits 65 bits or more
-S(w, v) == WrapTo(v, w, TRUE)                   \* intW(v)
-U(w, v) == WrapTo(v, w, FALSE)                  \* uintW(v)
+I64(v) == WrapW(v, 64, TRUE)                   \* int64(...) of a value that fits 65 bits or more
+S(w, v) == WrapW(v, w, TRUE)                   \* intW(v)
+U(w, v) == WrapW(v, w, FALSE)                  \* uintW(v)
 Reg(x) == I64(x)                                \* register content for the typed value x
 \* flattenIntegerKind (builder.go), strconv.IntSize = 64
 Flat(k) == IF k = "int" THEN "int64" ELSE IF k \in {"uint", "uintptr"} THEN "uint64" ELSE k
 \* vm.intk(b, op < 0): a constant operand that fits int8 is embedded in the instruction, otherwise it
 \* is loaded into a register first; numerically both give the int64 image of the value
-Intk(y, isConst) == IF isConst /\ FitsIn(y, 8, TRUE) THEN S(8, y) ELSE Reg(y)
+Intk(y, isConst) == IF isConst /\ Fits(y, 8, TRUE) THEN S(8, y) ELSE Reg(y)
 
 \* the "switch a { case reflect.Int8: v = int64(int8(v)) ... }" of OpAdd, OpSub, OpSubInv, OpMul, OpShl
 \* (no case for Int64: v stays)
@@ -106,9 +130,9 @@ TruncSwitch(fk, v) ==
 
 \* Go's native division at one width (what `int8(cv) / int8(bv)` does inside the VM)
 NativeQuo(a, b, w, signed) ==
-  IF signed /\ a = Neg(Pow2(w - 1)) /\ b = FromInt(-1) THEN a ELSE QuoRem(a, b).q
+  IF signed /\ a = Neg(PH(w)) /\ b = FromInt(-1) THEN a ELSE QuoRem(a, b).q
 NativeRem(a, b, w, signed) ==
-  IF signed /\ a = Neg(Pow2(w - 1)) /\ b = FromInt(-1) THEN Zero ELSE QuoRem(a, b).r
+  IF signed /\ a = Neg(PH(w)) /\ b = FromInt(-1) THEN Zero ELSE QuoRem(a, b).r
 \* operand re-interpretation in the per-kind switch of OpDiv / OpRem
 AsKind(fk, v) ==
   CASE fk = "int8" -> S(8, v) [] fk = "int16" -> S(16, v) [] fk = "int32" -> S(32, v) [] fk = "int64" -> v
@@ -190,21 +214,21 @@ ImplOutcomes(op, k, k2, x, y, isConst) ==
        IF e.p # "" THEN <<PanicOut(e.p), PanicOut(e.p)>>
        ELSE <<IntOut(ReadOut(rk, e.r)), IntOut(ReadWide(rk, e.r))>>
 
+\* the model's direct and widened read-outs agree and are what Go prescribes
 CaseOkModel(c, isConst) ==
   LET o == ImplOutcomes(c.op, c.k, c.k2, c.x, c.y, isConst) IN
-  RefHolds(c.op, c.k, c.k2, c.x, c.y, o[1]) /\ RefHolds(c.op, c.k, c.k2, c.x, c.y, o[2])
+  o[1] = o[2] /\ RefHolds(c.op, c.k, c.k2, c.x, c.y, o[1])
 
 (* ===================================================================== case space *)
-P2(n) == Pow2(n)
 BFull(k) == LET w == W(k) IN
   IF Signed(k)
   THEN {Zero, One, FromInt(-1), FromInt(2), FromInt(3), FromInt(7), FromInt(-7), MinOf(k), Add(MinOf(k), One),
-        MaxOf(k), Sub(MaxOf(k), One), P2(w \div 2), Neg(P2(w \div 2))}
-  ELSE {Zero, One, FromInt(2), FromInt(3), FromInt(7), MaxOf(k), Sub(MaxOf(k), One), P2(w \div 2),
-        Sub(P2(w \div 2), One), P2(w - 1), Add(P2(w - 1), One), Sub(P2(w - 1), One)}
+        MaxOf(k), Sub(MaxOf(k), One), PQ(w), Neg(PQ(w))}
+  ELSE {Zero, One, FromInt(2), FromInt(3), FromInt(7), MaxOf(k), Sub(MaxOf(k), One), PQ(w),
+        Sub(PQ(w), One), PH(w), Add(PH(w), One), Sub(PH(w), One)}
 BQuick(k) == LET w == W(k) IN
-  IF Signed(k) THEN {Zero, One, FromInt(-1), FromInt(3), MinOf(k), MaxOf(k), P2(w \div 2)}
-  ELSE {Zero, One, FromInt(3), MaxOf(k), P2(w \div 2), P2(w - 1)}
+  IF Signed(k) THEN {Zero, FromInt(-1), FromInt(3), MinOf(k), MaxOf(k)}
+  ELSE {Zero, One, MaxOf(k), PH(w)}
 \* shift counts of count kind k2 for an operand of width w
 Counts(k2, w) == {n \in {FromInt(0), FromInt(1), FromInt(w - 1), FromInt(w), FromInt(w + 1), FromInt(63),
                          FromInt(64), FromInt(65), FromInt(-1), MaxOf(k2), MinOf(k2)} : InKind(k2, n)}
